@@ -62,12 +62,16 @@ class Backfilling(TMGRSchedulingComponent):
                 pilot = self._pilots[pid]['pilot']
                 cores = pilot['description']['cores']
                 hwm   = int(cores * _HWM / 100)
+                # keep the accounting of a pilot which was added before: its
+                # tasks may still be running
+                info = self._pilots[pid]['info'] or dict()
+
                 self._pilots[pid]['info'] = {
                         'cores' : cores,
                         'hwm'   : hwm,
-                        'used'  : 0,
-                        'tasks' : list(),  # list of assigned task IDs
-                        'done'  : list(),  # list of executed task IDs
+                        'used'  : info.get('used',  0),
+                        'tasks' : info.get('tasks', list()),  # assigned IDs
+                        'done'  : info.get('done',  list()),  # executed IDs
                 }
 
             # now we can use the pilot
